@@ -471,7 +471,11 @@ class FnTx:
             elif ka != want:
                 self.err(n, f"argument {name} of {fname}: kind {ka}, expected {want}")
             args.append(a)
-        return "(" + " ".join([fname] + args) + ")", callee["kinds"].get("ret", "real")
+        head = fname
+        if callee.get("mod"):           # a definition of ANOTHER generated module (e.g. a reducer calling `trace_nearest`)
+            head = f"{callee['mod']}{self.fl.name}.{fname}"
+            self.table.setdefault("__used_externals__", set()).add(callee["mod"])
+        return "(" + " ".join([head] + args) + ")", callee["kinds"].get("ret", "real")
 
     # ---- statements --------------------------------------------------------------------------
     def none_tests(self, test):
@@ -632,11 +636,18 @@ open InfernoVerif
 """
 
 
+EXTERNAL: dict = {}      # function name -> {"mod", "order", "kinds"} of the modules generated so far (in SPEC order)
+
+
 def translate_module(mod: str, item: dict) -> dict:
     """one generated module = module-level functions of ONE file (`file`, `functions`) and / or *sites*
     (`sites`: expressions inside methods, each with its own `file`; see harness/sites.py)"""
     import sites as sitemod
     fdefs, table, segs, srcfile = {}, {}, {}, {}
+    for ext in item.get("uses", []):
+        for fn, d in EXTERNAL.items():
+            if d["mod"] == ext:
+                table[fn] = {"order": d["order"], "kinds": d["kinds"], "mod": ext}
     names = []
     if item.get("functions"):
         src_path = REPO / item["file"]
@@ -688,11 +699,15 @@ def translate_module(mod: str, item: dict) -> dict:
             info[fn] = {"source_sha": sha, "ret": rk, "order": table[fn]["order"], "params": allkinds[fn]["params"],
                         "site": fn in item.get("sites", {})}
         text += f"\nend InfernoVerif.Gen.{mod}{flv}\n"
+        for ext in sorted(table.get("__used_externals__", ())):
+            text = f"import InfernoVerif.Gen.{ext}{flv}\n" + text
         if flv == "R" and ("⌈" in text or "⌊" in text):
             text = "import Mathlib.Algebra.Order.Floor.Ring\n" + text
         if flv == "R" and "Real.pi" in text:
             text = "import Mathlib.Analysis.SpecialFunctions.Trigonometric.Basic\n" + text
         outs[flv] = text
+    for fn in names:
+        EXTERNAL[fn] = {"mod": mod, "order": table[fn]["order"], "kinds": table[fn]["kinds"]}
     changed = False
     GEN.mkdir(parents=True, exist_ok=True)
     for flv, text in outs.items():
